@@ -740,6 +740,11 @@ class cmap_format_2(CmapSubtable):
 
         # fix GI's and iDelta of last subheader that we we added to the subheader array.
         self.setIDDelta(subHeader)
+        # If that was subheader 0 (there are no two-byte char codes at all), its char codes
+        # still need their subHeaderKeys set to zero, as above.
+        if lastFirstByte == 0:
+            for index in range(subHeader.entryCount):
+                subHeaderKeys[subHeader.firstCode + index] = 0
 
         # Now we add a final subheader for the subHeaderKeys which maps to empty two byte charcode ranges.
         subHeader = SubHeader()
